@@ -367,6 +367,7 @@ func join(a, b context, node parse.Node, nodeName string) context {
 	a.element.nameUnfinished = a.element.nameUnfinished || b.element.nameUnfinished
 	a.attr.nameSplit = a.attr.nameSplit || b.attr.nameSplit
 	a.tagNameSplit = a.tagNameSplit || b.tagNameSplit
+	a.attr.valueFromCaller = a.attr.valueFromCaller && b.attr.valueFromCaller
 	if a.attr.value != b.attr.value || b.attr.ambiguousValue {
 		a.attr.ambiguousValue = true
 	}
@@ -712,9 +713,12 @@ func (e *escaper) escapeTree(c context, node parse.Node, name string, line int) 
 	if out, ok := e.output[dname]; ok {
 		// Already escaped, possibly for a call after other static attribute value text of the
 		// same class: what the template appends to the value follows the text at this call.
-		if entry, ok := e.entryValue[dname]; ok && out.state == stateAttr && strings.HasPrefix(out.attr.value, entry) {
+		// Only a template that stayed inside the attribute value of its call site has extended
+		// that value; one that ended it describes another attribute.
+		if entry, ok := e.entryValue[dname]; ok && out.state == stateAttr && out.attr.valueFromCaller && strings.HasPrefix(out.attr.value, entry) {
 			out.attr.value = c.attr.value + out.attr.value[len(entry):]
 		}
+		out.attr.valueFromCaller = out.attr.valueFromCaller && c.attr.valueFromCaller
 		return out, dname
 	}
 	e.entryValue[dname] = c.attr.value
@@ -748,7 +752,14 @@ func (e *escaper) escapeTree(c context, node parse.Node, name string, line int) 
 		}
 		t = dt
 	}
-	return e.computeOutCtx(c, t), dname
+	in := c
+	if in.state == stateAttr {
+		in.attr.valueFromCaller = true
+	}
+	out := e.computeOutCtx(in, t)
+	// For the caller the value is its own only if it was so before the call.
+	out.attr.valueFromCaller = out.attr.valueFromCaller && c.attr.valueFromCaller
+	return out, dname
 }
 
 // computeOutCtx takes a template and its start context and computes the output
